@@ -275,13 +275,16 @@ pub fn c18_child(a: &Args) -> i32 {
         let mut wrong_reads = 0u32;
         for (i, op) in h.ops.iter().enumerate() {
             if let Err(f) = s.apply(i, op, &h.keys, &mon, ctx, bits.next()) {
-                if op.is_update() || matches!(op, Op::Reopen(_)) || op.is_sync() {
+                // a call that did not return (panic, hang) ends the run; a call that returned something else than the
+                // model expects does not: this process is about the files the history leaves behind
+                let died = f.monitor == "panic" || f.monitor == "hang" || matches!(op, Op::Reopen(_));
+                if died {
                     println!("call {} failed: {}", f.at, f.msg);
                     return 3;
                 }
                 wrong_reads += 1;
                 if wrong_reads == 1 {
-                    println!("read-only call {} answered wrongly (tolerated, the run goes on): {}", f.at, f.msg);
+                    println!("call {} answered wrongly (tolerated, the run goes on): {}", f.at, f.msg);
                 }
             }
         }
@@ -328,6 +331,37 @@ pub fn c18(a: &Args) -> Ctx {
         } else {
             (kt, cfg)
         };
+        // one history per eight shards is the "lookup miss before a head relocation" pair: run B differs from run A by one
+        // `includes_key` of a key that is absent, issued right before the overwrite that moves the head record of
+        // that key's chain (whatever a failed lookup remembers about the chain must not survive the move)
+        let mut miss_before: Option<usize> = None;
+        let (kt, cfg) = if i == 0 && a.shard % 8 == 2 {
+            let nk = 10usize;
+            let mut keys: Vec<Vec<u8>> = (0..nk as u32).map(|j| format!("key{j:07}").into_bytes()).collect(); // 10 bytes: exactly full 16-byte records in a chain
+            keys.push(b"absent0000".to_vec());
+            let mut ops = Vec::new();
+            for k in 0..nk {
+                ops.push(Op::Put(k, ValSpec { len: 20, seed: k as u32, kind: 0 }));
+            }
+            for (j, l) in [9000u32, 9500, 10_000].into_iter().enumerate() {
+                ops.push(Op::Put(0, ValSpec { len: l, seed: 50 + j as u32, kind: 0 }));
+            }
+            // heads of the chain (most recent inserts) get values that move behind 16 KiB: their records move too
+            for k in [nk - 1, nk - 2, nk - 3] {
+                ops.push(Op::Put(k, ValSpec { len: 300, seed: 70 + k as u32, kind: 0 }));
+                if k == nk - 1 {
+                    miss_before = Some(ops.len() - 1);
+                }
+                ops.push(Op::Put(nk, ValSpec { len: 20 + k as u32, seed: 80, kind: 0 }));
+                ops.push(Op::Del(nk));
+            }
+            ops.push(Op::Put(nk, ValSpec { len: 21, seed: 81, kind: 0 }));
+            ha = History { kt: "bytes".into(), cfg: Cfg::small([1u64, 2][(a.shard / 8) % 2]), keys, ops, origin: "c18 directed: lookup miss before a head relocation".into() };
+            ctx.count("directed_miss_pairs", 1);
+            ("bytes", ha.cfg)
+        } else {
+            (kt, cfg)
+        };
         // run A: updates only (plus reopen with the same parameters); run B: same updates, read-only calls and extra flushes spliced in
         ha.ops.retain(|o| o.is_update() || matches!(o, Op::Reopen(_)));
         for o in ha.ops.iter_mut() {
@@ -339,7 +373,16 @@ pub fn c18(a: &Args) -> Ctx {
         hb.origin = format!("c18 run B (spliced) shard={} i={i}", a.shard);
         let mut spliced = Vec::with_capacity(ha.ops.len() * 2);
         let mut n_spliced = 0u64;
-        for o in ha.ops.iter() {
+        for (oi, o) in ha.ops.iter().enumerate() {
+            if let Some(mb) = miss_before {
+                // the directed pair: lookups of the absent key only, right before the relocating overwrites
+                if oi >= mb && matches!(o, Op::Put(_, v) if v.len == 300) {
+                    spliced.push(Op::Has(ha.keys.len() - 1));
+                    n_spliced += 1;
+                }
+                spliced.push(o.clone());
+                continue;
+            }
             while rng.chance(2, 5) {
                 spliced.push(read_only_op(&mut rng, ha.keys.len()));
                 n_spliced += 1;
